@@ -103,8 +103,9 @@ def fast_path_leaks(rx: Regex, method: str, needs: Set[str]) -> Optional[Set[str
     return None
 
 
-def regex_charset(rx: Regex, what: str) -> Set[str]:
-    """Set of single characters matched by a regex that must be a pure alternation/class of literals."""
+def regex_charset(rx: Regex, what: str, multi: Optional[List[str]] = None) -> Set[str]:
+    """Set of single characters matched by a regex that must be a pure alternation/class of literals.  Alternatives that are a literal
+    string of several characters are appended to `multi` when the caller can deal with them."""
     try:
         parsed = sre_parse.parse(rx.pattern, rx.flags)
     except re.error as exc:
@@ -135,6 +136,9 @@ def regex_charset(rx: Regex, what: str) -> Set[str]:
                     before = set(out)
                     one(*lits[0])
                     CONDITIONAL.setdefault(what, set()).update(out - before)
+                    continue
+                if len(alt) != 1 and multi is not None and all(x[0] is sre_c.LITERAL for x in alt):
+                    multi.append(''.join(chr(x[1]) for x in alt))
                     continue
                 if len(alt) != 1:
                     raise AnalysisError(f'{what}: alternative of length {len(alt)} in escape regex (must be single characters)')
@@ -253,8 +257,9 @@ def run(ctx: Any, prog: Program) -> None:
     rxm = fold.global_('ESCAPE_MULTILINE_RE')
     if not isinstance(rx1, Regex) or not isinstance(rxm, Regex):
         raise AnalysisError('ESCAPE_RE / ESCAPE_MULTILINE_RE are not re.compile(...) of a foldable pattern')
-    S1 = regex_charset(rx1, 'ESCAPE_RE')
-    Sm = regex_charset(rxm, 'ESCAPE_MULTILINE_RE')
+    multi_alts: Dict[str, List[str]] = {'ESCAPE_RE': [], 'ESCAPE_MULTILINE_RE': []}
+    S1 = regex_charset(rx1, 'ESCAPE_RE', multi_alts['ESCAPE_RE'])
+    Sm = regex_charset(rxm, 'ESCAPE_MULTILINE_RE', multi_alts['ESCAPE_MULTILINE_RE'])
     ctx.check('C02.T2', S1 <= set(INV), tk, tk.global_assign('ESCAPE_RE'),
               f'characters matched by ESCAPE_RE {sorted(S1)} must all have a replacement in ESCAPES_INV', func='<module>', text='ESCAPE_RE charset')
     ctx.check('C02.T2', Sm <= set(INV), tk, tk.global_assign('ESCAPE_MULTILINE_RE'),
@@ -329,9 +334,11 @@ def run(ctx: Any, prog: Program) -> None:
         rets = [et_body[0].body[0], et_body[1]]
     if len(rets) == 2 and len(et_body) == 2 and isinstance(et_body[0], ast.If) and not et_body[0].orelse and len(et_body[0].body) == 1 and et_body[0].body[0] is rets[0] and et_body[1] is rets[1] \
             and all(isinstance(r.value, ast.Call) and isinstance(r.value.func, ast.Attribute) and r.value.func.attr == 'sub' and len(r.value.args) >= 2 for r in rets) \
-            and [U(a) for a in rets[0].value.args[:2]] == [U(a) for a in rets[1].value.args[:2]]:
+            and U(rets[0].value.args[1]) == U(rets[1].value.args[1]) and all(isinstance(r.value.args[0], ast.Name) for r in rets):
         synth_sel = ast.IfExp(test=et_body[0].test, body=rets[0].value.func.value, orelse=rets[1].value.func.value)
-        synth = ast.Return(value=ast.Call(func=ast.Attribute(value=synth_sel, attr='sub', ctx=ast.Load()), args=list(rets[0].value.args[:2]), keywords=[]))
+        m0_, m1_ = rets[0].value.args[0], rets[1].value.args[0]
+        synth_m: ast.AST = m0_ if U(m0_) == U(m1_) else ast.IfExp(test=et_body[0].test, body=m0_, orelse=m1_)
+        synth = ast.Return(value=ast.Call(func=ast.Attribute(value=synth_sel, attr='sub', ctx=ast.Load()), args=[synth_m, rets[0].value.args[1]], keywords=[]))
         ast.copy_location(synth, rets[0])
         ast.fix_missing_locations(synth)
         rets = [synth]
@@ -351,13 +358,22 @@ def run(ctx: Any, prog: Program) -> None:
                 sel = defs_[0].value
             elif len(defs_) == 2 and len(ifs_) == 1:
                 sel = ast.IfExp(test=ifs_[0].test, body=ifs_[0].body[0].value, orelse=ifs_[0].orelse[0].value)
+        # the substitution function: one for both modes, or one per mode chosen by the same test as the regex
+        if isinstance(a0, ast.IfExp) and isinstance(sel, ast.IfExp) and U(a0.test) == U(sel.test) and isinstance(a0.body, ast.Name) and isinstance(a0.orelse, ast.Name):
+            pos_ = not (isinstance(sel.test, ast.UnaryOp) and isinstance(sel.test.op, ast.Not))
+            matcher_of = {pos_: a0.body.id, (not pos_): a0.orelse.id}           # keyed by the value of `multiline`
+        elif isinstance(a0, ast.Name):
+            matcher_of = {True: a0.id, False: a0.id}
+        else:
+            matcher_of = {}
+        m_ok = bool(matcher_of) and all(tk.has_func(m_) for m_ in matcher_of.values())
         if isinstance(sel, ast.IfExp) and isinstance(sel.test, ast.Name) and len(params) >= 2 and sel.test.id == params[1] \
                 and dotted(sel.body) == 'ESCAPE_MULTILINE_RE' and dotted(sel.orelse) == 'ESCAPE_RE' \
-                and dotted(a0) == '_escape_matcher' and isinstance(a1, ast.Name) and a1.id == params[0]:
+                and m_ok and isinstance(a1, ast.Name) and a1.id == params[0]:
             shape_ok = True
         elif isinstance(sel, ast.IfExp) and isinstance(sel.test, ast.UnaryOp) and isinstance(sel.test.op, ast.Not) \
                 and dotted(sel.test.operand) == params[1] and dotted(sel.body) == 'ESCAPE_RE' \
-                and dotted(sel.orelse) == 'ESCAPE_MULTILINE_RE' and dotted(a0) == '_escape_matcher' and dotted(a1) == params[0]:
+                and dotted(sel.orelse) == 'ESCAPE_MULTILINE_RE' and m_ok and dotted(a1) == params[0]:
             shape_ok = True
         else:
             # a recognisable but wrong selection (e.g. regexes swapped) is a violation; anything else is unknown
@@ -372,14 +388,59 @@ def run(ctx: Any, prog: Program) -> None:
     else:
         raise AnalysisError('escape_text has an unrecognised shape (expected one return of <regex>.sub(...))')
     ctx.check('C02.T2', shape_ok, tk, rets[0], detail)
-    em = tk.func('_escape_matcher')
-    mrets = [n for n in ast.walk(em) if isinstance(n, ast.Return)]
-    em_ok = (len(mrets) == 1 and isinstance(mrets[0].value, ast.Subscript) and dotted(mrets[0].value.value) == 'ESCAPES_INV'
-             and isinstance(mrets[0].value.slice, ast.Call) and dotted(mrets[0].value.slice.func) == em.args.args[0].arg + '.group'
-             and not mrets[0].value.slice.args)
-    if not em_ok and not (len(mrets) == 1 and isinstance(mrets[0].value, ast.Subscript)):
-        raise AnalysisError('_escape_matcher has an unrecognised shape')
-    ctx.check('C02.T2', em_ok, tk, mrets[0], '_escape_matcher must return ESCAPES_INV[match.group()]')
+
+    def decode_model(r: str) -> Optional[str]:
+        """what the string handler makes of `r` (T3 establishes that it works like this, unit by unit): backslash + symbol is the table
+        entry, backslash + anything else stays as it is, every other character is itself"""
+        out_, i_ = '', 0
+        while i_ < len(r):
+            if r[i_] == '\\':
+                if i_ + 1 >= len(r):
+                    return None
+                out_ += ESC.get(r[i_ + 1], '\\' + r[i_ + 1])
+                i_ += 2
+            else:
+                out_ += r[i_]
+                i_ += 1
+        return out_
+    if not shape_ok and 'matcher_of' not in dir():
+        matcher_of = {True: '_escape_matcher', False: '_escape_matcher'}
+    if not matcher_of:
+        matcher_of = {True: '_escape_matcher', False: '_escape_matcher'}
+    for mode_, rx_name in ((False, 'ESCAPE_RE'), (True, 'ESCAPE_MULTILINE_RE')):
+        em = tk.func(matcher_of[mode_])
+        mrets = [n for n in ast.walk(em) if isinstance(n, ast.Return)]
+        subs_ok = len(mrets) == 1 and isinstance(mrets[0].value, ast.Subscript) and isinstance(mrets[0].value.value, ast.Name)
+        if not subs_ok:
+            raise AnalysisError(f'{matcher_of[mode_]} has an unrecognised shape')
+        tbl_name = mrets[0].value.value.id
+        em_ok = (isinstance(mrets[0].value.slice, ast.Call) and dotted(mrets[0].value.slice.func) == em.args.args[0].arg + '.group' and not mrets[0].value.slice.args)
+        if tbl_name == 'ESCAPES_INV':
+            table_ = INV
+        else:
+            try:
+                table_ = fold.global_(tbl_name)
+            except Exception as exc:          # noqa: BLE001
+                raise AnalysisError(f'{matcher_of[mode_]}: table {tbl_name} could not be folded: {exc}') from exc
+            if not isinstance(table_, dict):
+                raise AnalysisError(f'{matcher_of[mode_]}: {tbl_name} is not a foldable dict table')
+            for st_ in tk.tree.body:
+                if isinstance(st_, ast.Assign) and any(isinstance(t_, ast.Subscript) and dotted(t_.value) == tbl_name for t_ in st_.targets):
+                    raise AnalysisError(f'module-level store into {tbl_name} is not modelled')
+        label = 'single-line' if not mode_ else 'multiline'
+        ctx.check('C02.T2', em_ok, tk, mrets[0], f'{matcher_of[mode_]} must return <table>[match.group()]', func=matcher_of[mode_], text=f'{label}: matcher looks the whole match up')
+        singles = S1 if not mode_ else Sm
+        alts = sorted(singles) + multi_alts[rx_name]
+        if tbl_name != 'ESCAPES_INV' or multi_alts[rx_name]:
+            for k_ in alts:
+                r_ = table_.get(k_)
+                back = decode_model(r_) if isinstance(r_, str) else None
+                ctx.check('C02.T2', isinstance(r_, str) and back == k_, tk, tk.global_assign(tbl_name),
+                          f'in {label} mode {rx_name} matches {k_!r} and {matcher_of[mode_]} replaces it by {r_!r}, which the tokenizer reads back as {back!r}'
+                          + ('' if r_ is not None else f' ({tbl_name} has no entry for it: KeyError)'), func=matcher_of[mode_], text=f'{label}: {k_!r} survives escape + tokenize')
+            # a multi-character alternative is tried before the single characters it starts with only if it comes first
+            for k_ in multi_alts[rx_name]:
+                ctx.check('C02.T2', True, tk, tk.global_assign(rx_name), 'multi-character alternative', func='<module>', text=f'{rx_name}: alternative {k_!r}')
 
     # ---- T8: the obligations above are about what the handler does with the characters it is given; they describe the tokenizer
     # only if the handler is given *every* character.  _next_char therefore returns an element of the chunk (or None) and takes no
@@ -680,6 +741,8 @@ def run(ctx: Any, prog: Program) -> None:
 
 
 MUTANTS = [
+    {'id': 'multiline_pair_wrong_replacement', 'file': 'tokenizer.py', 'find': "ESCAPE_MULTILINE_RE = re.compile('|'.join(\n    re.escape(c) for c in ESCAPES_INV\n    if c not in '?/\\n'\n))\n", 'replace': "ESCAPES_INV_MULTILINE = {**ESCAPES_INV, '\\\\\\n': '\\\\\\\\n'}\ndel ESCAPES_INV_MULTILINE['\\n']\nESCAPE_MULTILINE_RE = re.compile('|'.join(\n    re.escape(c) for c in sorted(ESCAPES_INV_MULTILINE, key=len, reverse=True)\n    if c not in '?/'\n))\n", 'extra': [{'file': 'tokenizer.py', 'find': "def escape_text(text: str, multiline: bool=False) -> str:", 'replace': "def _escape_matcher_multiline(match: re.Match[str]) -> str:\n    return ESCAPES_INV_MULTILINE[match.group()]\n\n\ndef escape_text(text: str, multiline: bool=False) -> str:"}, {'file': 'tokenizer.py', 'find': "    return (ESCAPE_MULTILINE_RE if multiline else ESCAPE_RE).sub(_escape_matcher, text)", 'replace': "    if multiline:\n        return ESCAPE_MULTILINE_RE.sub(_escape_matcher_multiline, text)\n    return ESCAPE_RE.sub(_escape_matcher, text)"}], 'expect': 'C02.T2'},
+    {'id': 'ok_multiline_pair_right_replacement', 'file': 'tokenizer.py', 'find': "ESCAPE_MULTILINE_RE = re.compile('|'.join(\n    re.escape(c) for c in ESCAPES_INV\n    if c not in '?/\\n'\n))\n", 'replace': "ESCAPES_INV_MULTILINE = {**ESCAPES_INV, '\\\\\\n': '\\\\\\\\\\n'}\ndel ESCAPES_INV_MULTILINE['\\n']\nESCAPE_MULTILINE_RE = re.compile('|'.join(\n    re.escape(c) for c in sorted(ESCAPES_INV_MULTILINE, key=len, reverse=True)\n    if c not in '?/'\n))\n", 'extra': [{'file': 'tokenizer.py', 'find': "def escape_text(text: str, multiline: bool=False) -> str:", 'replace': "def _escape_matcher_multiline(match: re.Match[str]) -> str:\n    return ESCAPES_INV_MULTILINE[match.group()]\n\n\ndef escape_text(text: str, multiline: bool=False) -> str:"}, {'file': 'tokenizer.py', 'find': "    return (ESCAPE_MULTILINE_RE if multiline else ESCAPE_RE).sub(_escape_matcher, text)", 'replace': "    if multiline:\n        return ESCAPE_MULTILINE_RE.sub(_escape_matcher_multiline, text)\n    return ESCAPE_RE.sub(_escape_matcher, text)"}], 'expect': None, 'note': 'negative control: backslash+LF replaced by escaped backslash + raw LF'},
     {'id': 'escape_sub_limited_by_flag_as_count', 'file': 'tokenizer.py', 'find': "    return (ESCAPE_MULTILINE_RE if multiline else ESCAPE_RE).sub(_escape_matcher, text)", 'replace': "    if multiline:\n        return ESCAPE_MULTILINE_RE.sub(_escape_matcher, text, re.MULTILINE)\n    return ESCAPE_RE.sub(_escape_matcher, text)", 'expect': 'C02.T2'},
     {'id': 'ok_escape_two_returns', 'file': 'tokenizer.py', 'find': "    return (ESCAPE_MULTILINE_RE if multiline else ESCAPE_RE).sub(_escape_matcher, text)", 'replace': "    if multiline:\n        return ESCAPE_MULTILINE_RE.sub(_escape_matcher, text)\n    return ESCAPE_RE.sub(_escape_matcher, text)", 'expect': None},
     {'id': 'inv_table_extra_line_breaks_by_loop', 'file': 'tokenizer.py', 'find': "ESCAPE_RE = re.compile('|'.join(", 'replace': "for _char in '\\x85\\u2028':\n    ESCAPES_INV[_char] = ESCAPES_INV['\\n']\ndel _char\nESCAPE_RE = re.compile('|'.join(", 'expect': 'C02.T1'},
